@@ -1,6 +1,8 @@
 (* C12 property theorems. This file contains only statements closed by
    [exact lemma] and Print Assumptions. *)
 From V Require Import Common.Base C12.Hex C12.ColorSpec C12.HexProofs gen.ColorTablesGen C12.TablesProofs.
+From V Require Import C12.Cascade C12.CascadeProofs C12.Mangle C12.MangleProofs C12.MergeProofs C12.MangleRulesProofs.
+From V Require Import C12.NumberCss C12.NumberSpec C12.NumberProofs C12.ShiftProofs.
 
 (* compactHex undoes expandHex on every 16-bit value (0xABCD -> 0xAABBCCDD -> 0xABCD) *)
 Theorem hex_compact_roundtrip : forall v, 0 <= v < 2 ^ 16 -> compactHex (expandHex v) = v.
@@ -23,3 +25,96 @@ Theorem generate_color_value : forall minify unsupported hex,
   spec_color_value colorNameToHex (generate_color shortColorName minify unsupported hex) = Some hex.
 Proof. exact generate_color_value_tables. Qed.
 Print Assumptions generate_color_value.
+
+(* RemoveDeadRulesInPlace (drop every rule that is structurally equal to a later
+   sibling, drop rules whose selectors all contain an empty :is()/:where()),
+   applied to a rule list anywhere in a style sheet (any enclosing conditions
+   and layer, anything before and after), changes no winner: every world
+   (condition truth, understood selectors and values, matching, specificity),
+   every element, every property.  The only assumption is the Selectors-4 fact
+   that a dead selector matches nothing. *)
+Theorem dedupe_keeps_winner : forall w,
+  (forall s e, s_dead s = true -> matches w (s_id s) e = false) ->
+  forall pre conds layer rs post e p,
+  winner w (pre ++ flatten_list conds layer (remove_dead rs) ++ post) e p =
+  winner w (pre ++ flatten_list conds layer rs ++ post) e p.
+Proof. exact dedupe_keeps_winner_all. Qed.
+Print Assumptions dedupe_keeps_winner.
+
+(* the same pass over the declarations of one rule (duplicate declarations) *)
+Theorem dedupe_decls_keeps_winner : forall w pre stmt conds layer sels ds post e p,
+  winner w (pre ++ [mkItem stmt conds layer sels (remove_dead_decls ds)] ++ post) e p =
+  winner w (pre ++ [mkItem stmt conds layer sels ds] ++ post) e p.
+Proof. exact dedupe_decls_keeps_winner_all. Qed.
+Print Assumptions dedupe_decls_keeps_winner.
+
+(* the linker's loop (one remover shared by all files, last file first) is one
+   pass over the concatenation of the top-level rule lists *)
+Theorem dedupe_calls_concat : forall (a b seen : list rule),
+  rd rule_eqb all_dead hashable (a ++ b) seen =
+  let '(kb, sb) := rd rule_eqb all_dead hashable b seen in
+  let '(ka, sa) := rd rule_eqb all_dead hashable a sb in (ka ++ kb, sa).
+Proof. exact (rd_app rule_eqb all_dead hashable). Qed.
+Print Assumptions dedupe_calls_concat.
+
+(* "a {D} b {D}" => "a, b {D}" (adjacent rules, equal bodies; selectors already
+   present are not repeated) changes no winner in any world that understands
+   every selector of the two rules - which is what isSafeSelectors is for *)
+Theorem adjacent_merge_keeps_winner : forall w pre conds layer s1 s2 ds post e p,
+  (forall s, In s (s1 ++ s2) -> sel_understood w (s_id s) = true) ->
+  winner w (pre ++ [mkItem false conds layer (map s_id (merge_sels s1 s2)) ds] ++ post) e p =
+  winner w (pre ++ [mkItem false conds layer (map s_id s1) ds; mkItem false conds layer (map s_id s2) ds] ++ post) e p.
+Proof. exact adjacent_merge_keeps_winner_all. Qed.
+Print Assumptions adjacent_merge_keeps_winner.
+
+(* mangleRules as a whole on one rule list (empty-rule removal, unwrapping of a
+   nested @media that repeats an enclosing one, adjacent merging with the
+   prevNonComment bookkeeping, then duplicate removal when not at top level),
+   in any context whose conditions include the enclosing @media queries, in
+   every world where the selectors esbuild calls safe are understood and dead
+   selectors match nothing.  PARTIAL: rule lists in which "@layer a { @layer b
+   {..} }" would be collapsed to "@layer a.b {..}" are excluded (no_collapse);
+   that rewrite is tied by the correspondence and oracle runs only. *)
+Theorem mangle_rules_keeps_winner_partial : forall w conds layer encl,
+  (forall q, In q encl -> In q conds) ->
+  (forall s, s_safe s = true -> sel_understood w (s_id s) = true) ->
+  (forall s e, s_dead s = true -> matches w (s_id s) e = false) ->
+  forall rules top, Forall no_collapse rules ->
+  forall pre post e p,
+  winner w (pre ++ flatten_list conds layer (mangle_rules encl rules top) ++ post) e p =
+  winner w (pre ++ flatten_list conds layer rules ++ post) e p.
+Proof. exact mangle_rules_keeps_winner_all. Qed.
+Print Assumptions mangle_rules_keeps_winner_partial.
+
+(* mangleNumber keeps the exact value (CSS Syntax 3 "convert a string to a
+   number", as an exact pair m * 10^e) of every CSS number token: every sign,
+   integer part, fractional part and exponent allowed by the <number-token>
+   grammar (after fix 4a7b5a3, numbers with an exponent included) *)
+Theorem mangle_number_value : forall sg ip fo x, wf_num sg ip fo x ->
+  exists v v', css_number_value (render sg ip fo x) = Some v /\
+               css_number_value (fst (mangleNumber (render sg ip fo x))) = Some v' /\ qeq v v'.
+Proof. exact mangle_number_value_all. Qed.
+Print Assumptions mangle_number_value.
+
+(* shiftDot (used to turn "ms" into "s" and back) multiplies the exact value by
+   10^offset for every number without exponent - every sign, integer part and
+   fractional part, all-zero numbers included (fix 0f05885) - and the result is
+   again a CSS number *)
+Theorem shift_dot_value : forall sg ip fo k, wf_num sg ip fo NoExp ->
+  exists s' v', shiftDot (render sg ip fo NoExp) k = Some s' /\
+    css_number_value s' = Some v' /\
+    qeq v' (sgv sg * digits_val (ip ++ frac_digits fo), - Z.of_nat (length (frac_digits fo)) + k).
+Proof. exact shift_dot_value_all. Qed.
+Print Assumptions shift_dot_value.
+
+From V Require Import C12.ImportOrder.
+(* isConditionalImportRedundant is sound: when it answers true, the later copy of
+   the imported file applies in every environment in which the earlier one
+   applies (truth of supports() / media conditions arbitrary), and it sits in
+   the same layers along the later chain *)
+Theorem redundant_condition_sound : forall supp_true media_true earlier later,
+  redundant earlier later = true ->
+  (chain_holds supp_true media_true earlier = true -> chain_holds supp_true media_true later = true) /\
+  map ic_layer (firstn (length later) earlier) = map ic_layer later.
+Proof. exact redundant_sound_all. Qed.
+Print Assumptions redundant_condition_sound.
